@@ -43,7 +43,7 @@ DPrim(t, i) ==
   IF i > Len(t) THEN DFail(i)
   ELSE LET tk == t[i] IN
     IF tk.k \in {"num", "hex"} THEN <<TRUE, N4("num", tk.n, tk.d, "real"), i + 1>>
-    ELSE IF tk.k = "big" THEN <<TRUE, N4("big", tk.v, "", ""), i + 1>>
+    ELSE IF tk.k = "big" THEN <<TRUE, N4("big", tk.v, tk.s, ""), i + 1>>     \* a spelling the shim does not evaluate: its text
     ELSE IF tk.k = "str" THEN <<TRUE, N4("str", tk.s, "", ""), i + 1>>
     ELSE IF DOp(tk, "-") THEN LET r == DExp(t, i + 1, 7) IN IF r[1] THEN <<TRUE, N4("un", "neg", r[2], ""), r[3]>> ELSE r
     ELSE IF DOp(tk, "+") THEN LET r == DExp(t, i + 1, 7) IN IF r[1] THEN <<TRUE, N4("un", "pos", r[2], ""), r[3]>> ELSE r
